@@ -124,7 +124,7 @@ def run_foreign(prop, tier, seed, projections, n, explanation, mix=None, extra_j
         shutil.rmtree(sd, ignore_errors=True)
     shutil.rmtree(d, ignore_errors=True)
     shutil.rmtree(d0, ignore_errors=True)
-    cov = {'evaluations': len(cases), 'distinct_nontrivial': len(cases),
+    cov = {'evaluations': len(cases), 'distinct_nontrivial': qv.distinct_nontrivial([c['text'] for c in cases]), 'nontrivial_rule': 'distinct operation scripts with at least one write',
            'rule': 'images from the independent builder (data / compressed / zero / preallocated-zero / unallocated clusters, optional backing chain of depth 1-2, backing shorter / equal / longer) x random device parameters x histories of partial, whole and straddling writes, reads, discards, flushes; closing sweep, flush, snapshot, reopen with other parameters, sweep; specification checker on every flushed snapshot',
            'samples': [{'image': c['g'].desc() + (' chain=%d' % len(c['descs']) if c['descs'] else ' (library formatted)'), 'ops': [hist.op_line(o) for o in c['ops'][:8]]} for c in cases[:2] + cases[-1:]],
            'programs': len(cases), 'disagreements_checked': sum(counts.values()), 'distribution': dict(stats),
